@@ -572,6 +572,8 @@ class Dict(dict, base.Symbolic, pg_typing.CustomTyping):
       new_value = self._formalized_value(key, field, value)
       super().__setitem__(key, new_value)
 
+    self._invalidate_content_caches()
+
     # NOTE(daiyip): If current dict is the field dict of a symbolic object,
     # Use parent object as update target.
     target = self
@@ -780,6 +782,7 @@ class Dict(dict, base.Symbolic, pg_typing.CustomTyping):
     if base.treats_as_sealed(self):
       raise base.WritePermissionError('Cannot pop item from a sealed Dict.')
     key, value = super().popitem()
+    self._invalidate_content_caches()
     # Detach old value from object tree.
     if isinstance(value, base.TopologyAware):
       value.sym_setparent(None)
@@ -808,6 +811,7 @@ class Dict(dict, base.Symbolic, pg_typing.CustomTyping):
         old_value.sym_setparent(None)
         old_value.sym_setpath(utils.KeyPath())
     super().clear()
+    self._invalidate_content_caches()
 
     if value_spec:
       # Changes are reported once, below.
